@@ -3,6 +3,7 @@ package ghprovider
 import (
 	"html/template"
 	"os"
+	"strconv"
 	"strings"
 	"sync"
 
@@ -162,7 +163,8 @@ func (provider *Provider) View(layoutName, viewName string) (tmpl *template.Temp
 	if viewName == "" {
 		return nil, goaterr.Errorf("goathtml.Provider: A view name is required")
 	}
-	key = layoutName + ":" + viewName
+	// the layout name length makes the key unambiguous ("a:b"+"c" vs "a"+"b:c")
+	key = strconv.Itoa(len(layoutName)) + ":" + layoutName + ":" + viewName
 	// check with read lock only (preformence feature)
 	provider.viewMutex.RLock()
 	tmpl, ok = provider.views[key]
